@@ -357,8 +357,13 @@ func autoAxioms(ts []*Term) []*Term {
 					ax1 := mkImp(mkOr(mkLt(j, lo), mkGe(j, hi)), mkEq(u, below))
 					topLow := mkV(m0, lo, j)
 					ax2 := mkImp(mkAnd(mkEq(j, mkSub(hi, mkI(1))), mkLe(lo, j)), mkEq(u, mkAdd(topLow, mkMul(v, mkP(mkSub(j, lo))))))
-					out = append(out, ax1, ax2)
-					queue = append(queue, below, topLow, mkP(mkSub(j, lo)))
+					// store at the low end (lemma V_low on both arrays)
+					rest := mkV(m0, mkAdd(lo, mkI(1)), hi)
+					ax3 := mkImp(mkAnd(mkEq(j, lo), mkLt(lo, hi)), mkAnd(
+						mkEq(u, mkAdd(v, mkMul(rest, B))),
+						mkEq(below, mkAdd(mkSelect(m0, lo), mkMul(rest, B)))))
+					out = append(out, ax1, ax2, ax3)
+					queue = append(queue, below, topLow, mkP(mkSub(j, lo)), rest)
 				}
 			}
 			return true
